@@ -541,3 +541,105 @@ where
         }
     }
 }
+
+/// Parse with CPCT+ recovery under the verification hooks: practically unlimited time budget,
+/// deterministic expansion cap. Third component: the cap fired (the case must not be judged).
+pub fn parse_tree_rec<T: 'static + PrimInt + Unsigned + Hash + Debug>(
+    b: &Built<T>,
+    input: &[usize],
+    layout: &Layout,
+    costs: Option<&[u8]>,
+    cap: u64,
+) -> Result<(Option<ITree>, Vec<PErr>, bool), String>
+where
+    usize: AsPrimitive<T>,
+{
+    lrpar::verif_hooks::set_budget_ms(Some(86_400_000));
+    lrpar::verif_hooks::set_expansion_cap(cap);
+    let r = parse_tree(b, input, layout, RecoveryKind::CPCTPlus, costs);
+    let hit = lrpar::verif_hooks::cap_hit();
+    lrpar::verif_hooks::set_expansion_cap(u64::MAX);
+    r.map(|(t, e)| (t, e, hit))
+}
+
+/// Index of the input lexeme an error points at (`n` = end of input), with the well-formedness
+/// of that lexeme checked against the layout.
+pub fn error_index<T: 'static + PrimInt + Unsigned + Hash + Debug>(
+    b: &Built<T>,
+    e: &PErr,
+    input: &[usize],
+    layout: &Layout,
+) -> Result<usize, String>
+where
+    usize: AsPrimitive<T>,
+{
+    let spans = layout.spans();
+    let eof = usize::from(b.grm.eof_token_idx());
+    if e.tok_id == eof {
+        let end = spans.last().map(|(s, l)| s + l).unwrap_or(0);
+        if e.len != 0 || e.start != end {
+            return Err(format!(
+                "end-of-input error lexeme is at {}..{} but the last lexeme ends at {}",
+                e.start,
+                e.start + e.len,
+                end
+            ));
+        }
+        return Ok(input.len());
+    }
+    let i = spans
+        .iter()
+        .position(|(s, _)| *s == e.start)
+        .ok_or_else(|| format!("error lexeme at offset {} is not an input lexeme", e.start))?;
+    if e.len != spans[i].1 || e.tok_id != b.tok_usize(input[i]) || e.faulty {
+        return Err(format!(
+            "error lexeme (tok id {}, {}..{}, faulty {}) differs from input lexeme {i}",
+            e.tok_id,
+            e.start,
+            e.start + e.len,
+            e.faulty
+        ));
+    }
+    Ok(i)
+}
+
+/// Number of reductions the table-driven LR loop performs on the offending lookahead before it
+/// reaches the error entry (classification only; simulated over the public table API).
+pub fn reductions_before_error<T: 'static + PrimInt + Unsigned + Hash + Debug>(
+    b: &Built<T>,
+    input: &[usize],
+) -> usize
+where
+    usize: AsPrimitive<T>,
+{
+    use lrtable::Action;
+    let mut stack = vec![b.st.start_state()];
+    let mut i = 0;
+    let mut reds = 0;
+    for _ in 0..100_000 {
+        let la = if i < input.len() {
+            b.tok[input[i]]
+        } else {
+            b.grm.eof_token_idx()
+        };
+        match b.st.action(*stack.last().unwrap(), la) {
+            Action::Shift(s) => {
+                stack.push(s);
+                i += 1;
+                reds = 0;
+            }
+            Action::Reduce(p) => {
+                let n = b.grm.prod(p).len();
+                stack.truncate(stack.len() - n);
+                match b.st.goto(*stack.last().unwrap(), b.grm.prod_to_rule(p)) {
+                    Some(g) => stack.push(g),
+                    None => return reds,
+                }
+                reds += 1;
+            }
+            Action::Error => return reds,
+            Action::Accept => return 0,
+        }
+    }
+    reds
+}
